@@ -18,10 +18,11 @@ Section Commute.
 Variable S : Type.
 Variable react : S -> mid -> mstate -> json -> option mstate * list json.
 Variable decode_src : json -> option S.
+Variable resolves : S -> bool.
 
 Local Notation crew := (crew S).
-Local Notation present := (present S react decode_src).
-Local Notation run_list := (run_list S react decode_src).
+Local Notation present := (present S react decode_src resolves).
+Local Notation run_list := (run_list S react decode_src resolves).
 Local Notation wf_crew := (wf_crew S).
 Local Notation can_see := (can_see S).
 
@@ -173,9 +174,9 @@ Proof.
   destruct (run_list_final c msg mids' c W NC' ND' (fun _ _ => conj eq_refl eq_refl))
     as (c1' & rs' & bs' & H2 & M2 & C2 & W2 & P2 & T2).
   exists c1', rs', bs'. split; [exact H2|].
-  destruct (run_list_static S react decode_src c c msg mids _ _ _ W NC ND (fun _ _ => eq_refl) (fun _ => eq_refl) H)
+  destruct (run_list_static S react decode_src resolves c c msg mids _ _ _ W NC ND (fun _ _ => eq_refl) (fun _ => eq_refl) H)
     as (R1 & _ & B1).
-  destruct (run_list_static S react decode_src c c msg mids' _ _ _ W NC' ND' (fun _ _ => eq_refl) (fun _ => eq_refl) H2)
+  destruct (run_list_static S react decode_src resolves c c msg mids' _ _ _ W NC' ND' (fun _ _ => eq_refl) (fun _ => eq_refl) H2)
     as (R2 & _ & B2).
   split; [|split].
   - repeat split.
@@ -194,9 +195,9 @@ Theorem round_order_irrelevant
         (perm1 : forall A l, Permutation (ord1 A l) l) (perm2 : forall A l, Permutation (ord2 A l) l)
         c msg c1 rd1 :
   wf_crew c -> mixes_captain msg = false ->
-  run_machines S react decode_src ord1 c msg = Done (c1, rd1) ->
+  run_machines S react decode_src resolves ord1 c msg = Done (c1, rd1) ->
   exists c2 rd2,
-    run_machines S react decode_src ord2 c msg = Done (c2, rd2)
+    run_machines S react decode_src resolves ord2 c msg = Done (c2, rd2)
     /\ crew_pw c1 c2
     /\ Permutation (rd_recips S rd1) (rd_recips S rd2)
     /\ Permutation (rd_batches S rd1) (rd_batches S rd2).
